@@ -22,6 +22,22 @@ Definition rtopk_new (s : store) (k rows cols er acc : N) (ertxt acctxt : bytes)
   | (Panic t, s1) => (Panic t, s1)
   end.
 
+(* NewTopKRedisFromKey: k, the heap key and the sketch's metadata key from the metadata hash, then
+   NewCountMinSketchRedisFromKey; the two rates are parsed from their decimal text by the caller *)
+Definition rtopk_attach (s : store) (meta : bytes) (er acc : N) : outcome rtopk :=
+  let k := atoi (r_hget s meta f_k) in
+  let hkey := match r_hget s meta f_heapkey with Some b => b | None => [] end in
+  let smeta := match r_hget s meta f_sketchkey with Some b => b | None => [] end in
+  match rcms_attach s smeta with
+  | Ok sk => Ok (mkRtopk k er acc sk hkey meta)
+  | Err e => Err e
+  | Panic e => Panic e
+  end.
+
+(* importHeap: DEL the heap key, then one ZADD per exported entry, in document order *)
+Definition rtopk_import_heap (s : store) (hkey : bytes) (entries : list (bytes * N)) : store :=
+  fold_left (fun st e => r_zadd st hkey (fst e) (snd e)) entries (sdel s hkey).
+
 Section WithPos.
 Variable cpos : N -> N -> bytes -> list N.
 
